@@ -62,6 +62,24 @@ def cases(tier, salts):
                                 for reg in ("l1", "l2"):
                                     out.append({"k": "sfista", "set": sname, "g": list(g), "sc": sc, "delta": dl, "H": hf,
                                                 "reg": reg, "salt": salt})
+        # (b2) every pair of constraints from a family that cuts the trust region (wave i: with two or more user sets whose
+        # Dykstra corrections are both live at the solution the routine stops unconverged, and only the set projected LAST
+        # is satisfied exactly): 24 normals x 3 offsets of half-spaces and 4 off-centre balls, all relative to Delta
+        if salt == salts[0] or tier == "thorough":
+            fam = pair_family()
+            gdirs = [[1.0, 0.0], [1.0, 1.0], [1.0, 0.4], [-0.3, 1.0]]    # the family covers the circle; four phases against it
+            for i in range(len(fam)):
+                for j in range(i + 1, len(fam)):
+                    if fam[i]["t"] == "half" and fam[j]["t"] == "half" and \
+                            fam[i]["a"][0] * fam[j]["a"][0] + fam[i]["a"][1] * fam[j]["a"][1] < 0.4:
+                        continue        # normals more than 66 degrees apart: the second set is not live where the first cuts
+                    for g in gdirs:
+                        for dl in ([0.1, 1.0] if tier == "quick" else [1e-2, 0.1, 1.0, 10.0]):
+                            base = {"specs": [fam[i], fam[j]], "set": "pair%d_%d" % (i, j), "g": g, "sc": 1.0, "delta": dl, "salt": salt}
+                            out.append(dict(base, k="cgeom", c=0.5))
+                            out.append(dict(base, k="pgd", H="zero"))
+                            if tier == "thorough":
+                                out.append(dict(base, k="pgd", H="rank1"))
         # (c) regularised trust_region_step on real controllers
         if salt == 0 or (tier == "thorough" and salt == 1):
             for reg in ("l1", "l2"):
@@ -75,6 +93,19 @@ def cases(tier, salts):
                                     out.append({"k": "regstep", "reg": reg, "lam": lam, "bounds": bnd, "pert": pert,
                                                 "delta": delta, "max_iters": mi, "salt": salt})
     return out
+
+
+def pair_family():
+    import math
+    fam = []
+    for k in range(24):
+        th = 2.0 * math.pi * k / 24.0 + 0.1
+        for beta in (0.2, 0.45, 0.7):
+            fam.append({"t": "half", "a": [math.cos(th), math.sin(th)], "b": beta, "rel": True})
+    for k in range(4):
+        th = 2.0 * math.pi * k / 4.0 + 0.4
+        fam.append({"t": "ball", "c": [0.6 * math.cos(th), 0.6 * math.sin(th)], "r": 1.0, "rel": True})
+    return fam
 
 
 def _box(case):
@@ -154,7 +185,7 @@ def _check_geom(case):
 def _sets(case):
     e = 1.0 + 0.01 * case["salt"]
     specs = []
-    for sp in SETS2[case["set"]]:
+    for sp in (case["specs"] if "specs" in case else SETS2[case["set"]]):
         sp = dict(sp)
         if sp.pop("rel", False):
             D = case["delta"]
@@ -199,9 +230,21 @@ def _check_convex(case):
         v.append(("convex_ball", "%s returned ||d||=%.17g > Delta=%.17g (set %s)" % (what, nd, Delta, case["set"])))
     if nd >= Delta * (1 - 1e-6):
         tags.append(what + "_on_ball")
+        if "specs" in case:
+            tags.append("pair_on_ball")
+            if sum(1 for st in sets if st.dist(xopt + d) > 0 or abs(_slack(st, xopt + d)) < 1e-6 * Delta) >= 2:
+                tags.append("pair_both_active_on_ball")
     if nd > 0:
         tags.append(what + "_moves")
     return v, tags
+
+
+def _slack(st, x):
+    if st.t == "ball":
+        return st.r - float(np.linalg.norm(x - st.c))
+    if st.t == "half":
+        return (st.b - float(st.a.dot(x))) / float(np.linalg.norm(st.a))
+    return 1.0
 
 
 _CTL_CACHE = {}
@@ -286,7 +329,7 @@ def run(report, tier, seed):
     tags = gridx.run_grid(report, MOD, cs, classify=classify, chunk=60)
     cov = report.coverage
     need = ["geom_moves", "geom_on_ball", "ctrsbox_pgd_on_ball", "ctrsbox_geometry_on_ball", "ctrsbox_sfista_moves",
-            "regstep_moves", "regstep_zero", "regstep_zero:proj", "regstep_zero:bounds", "regstep_zero:none", "regstep_zero:scaled"]
+            "pair_on_ball", "regstep_moves", "regstep_zero", "regstep_zero:proj", "regstep_zero:bounds", "regstep_zero:none", "regstep_zero:scaled"]
     missing = [t for t in need if not tags.get(t)]
     if missing:
         raise common.HarnessError("C13 grid is vacuous: %s never occurred" % missing)
